@@ -537,7 +537,7 @@ func (f *Frame) enterLoop(l *Loop, cur *State, phiVals map[*ssa.Phi]Val) *State 
 			ctx := f.evalCtx(st, l)
 			v, err := e.eval(ctx, spec.Decreases.E)
 			if err == nil {
-				l.variant0 = e.define("variant", "Int", v.S)
+				l.variant0 = e.define("variant", e.valSort(v), v.S)
 			} else {
 				e.bindError(fmt.Sprintf("%s.%s.decreases", e.fname, lname), err)
 			}
@@ -826,8 +826,11 @@ func (f *Frame) backEdge(l *Loop, from *ssa.BasicBlock, st *State) {
 		ctx := f.evalCtx(st, l)
 		v, err := e.eval(ctx, spec.Decreases.E)
 		if err == nil {
-			e.obNamed(fmt.Sprintf("%s.%s%s.decreases%s", e.fname, lname, f.label, suffix), "loop.variant", "variant non-negative and strictly decreasing: "+spec.Decreases.Text, st.cond,
-				fmt.Sprintf("(and (>= %s 0) (< %s %s))", l.variant0, v.S, l.variant0), pos)
+			goal := fmt.Sprintf("(and (>= %s 0) (< %s %s))", l.variant0, v.S, l.variant0)
+			if srt := e.valSort(v); strings.HasPrefix(srt, "(_ BitVec") {
+				goal = fmt.Sprintf("(and (bvsge %s %s) (bvslt %s %s))", l.variant0, bvLit("0", bvWidth(srt)), v.S, l.variant0)
+			}
+			e.obNamed(fmt.Sprintf("%s.%s%s.decreases%s", e.fname, lname, f.label, suffix), "loop.variant", "variant non-negative and strictly decreasing: "+spec.Decreases.Text, st.cond, goal, pos)
 		}
 	}
 	for p, v := range saved {
